@@ -8,6 +8,8 @@ def check(rep, tier):
     tracer_trace.run(rep, tier, only=("TR-result",))
     core_outgrads.run(rep, tier, only=("AO-dense",))
     rules_exact.run(rep, tier, rules_exact.CLAUSE_PROPS["C06"])
-    rules_exact.run(rep, tier, ("X-value", "X-numpy"), which="index")
+    rules_exact.run(rep, tier, ("X-value", "X-numpy", "X-notracer"), which="index")
     from contracts import containers
     containers.run_exact(rep, tier, clauses=('K-value',))
+    from contracts import value_transparency
+    value_transparency.run(rep, tier)
